@@ -2,6 +2,10 @@
 // write array / write string) on StreamBuffer+StreamBufferReader, File and Socket, compares the bytes that reached the
 // buffer, the file (read with POSIX calls) and the wire (peeked on the peer descriptor) with the specification's `out`,
 // then reads everything back with the same types and the same byte-order switch points and compares the values.
+// Histories over the caller's long-lived objects (records "new", "pset" and writes with src > 0): one real object per
+// entry of the specification's pool, created once, written as often as the history says (through the object or through
+// a handle sharing its buffer), assigned to only where the history says; after the writes and again after the reads
+// every object is compared with the specification's pool (operator<< must not change what it is given).
 #include "c16_common.h"
 #include "vrun.h"
 
@@ -19,6 +23,40 @@ static std::string hex(const std::string& s)
 	return r + "(" + std::to_string(s.size()) + ")";
 }
 
+static std::string hexList(const std::vector<std::string>& v)
+{
+	std::string r = "[";
+	for (size_t i = 0; i < v.size() && i < 8; i++) r += (i ? " " : "") + hex(v[i]);
+	if (v.size() > 8) r += " ...";
+	return r + "]x" + std::to_string(v.size());
+}
+
+static std::vector<std::string> elemsOf(const vj::Value& a)
+{
+	std::vector<std::string> el;
+	for (size_t k = 0; k < a.size(); k++) el.push_back(a[k].bytes());
+	return el;
+}
+
+// compares the real objects with the specification's pool; returns "" or the description of the first difference
+static std::string poolDiff(Pool& pool, const vj::Value& want)
+{
+	if (pool.objs.size() != want.size()) return "harness: " + std::to_string(pool.objs.size()) + " objects, specification has " + std::to_string(want.size());
+	for (size_t i = 0; i < want.size(); i++)
+	{
+		std::vector<std::string> w = elemsOf(want[i]["a"]);
+		for (int h = 0; h < 2; h++)
+		{
+			std::vector<std::string> g = pool.objs[i]->elems(h);
+			if (g != w)
+				return "the caller's object " + std::to_string(i + 1) + " (" + (pool.objs[i]->kind == "w" ? "scalar " : pool.objs[i]->kind == "wa" ? "Array of " : "String ") +
+				       pool.objs[i]->type + (h ? ", seen through the sharing handle" : "") + ") now holds " + hexList(g) + ", specification says " + hexList(w) +
+				       " (operator<< must leave its argument unchanged)";
+		}
+	}
+	return "";
+}
+
 #define FAIL(...) do { char _b[700]; snprintf(_b, sizeof _b, __VA_ARGS__); return Outcome::fail(std::string(S::name()) + ": step " + std::to_string(step) + " " + opname + ": " + _b); } while (0)
 
 template <class S>
@@ -29,12 +67,34 @@ static Outcome runOn(const vj::Value& c)
 	size_t step = 0;
 	std::string opname = "init";
 	S s(*g_tmp);
+	Pool pool;
 	if (!s.ok()) FAIL("harness: cannot create the stream");
 	for (step = 0; step < hist.size(); step++)
 	{
 		const vj::Value& o = hist[step];
 		opname = o["op"].s();
+		long src = o.has("src") ? (long)o["src"].ll() : 0;
 		if (opname == "set") s.wset(endianOf(o["o"].s()));
+		else if (opname == "new")
+		{
+			Obj* ob = newObj(o["k"].s(), o["t"].s(), elemsOf(o["a"]));
+			if (!ob || (size_t)o["i"].ll() != pool.objs.size() + 1) FAIL("harness: bad object");
+			pool.objs.push_back(ob);
+		}
+		else if (opname == "pset")
+		{
+			Obj* ob = pool.at((long)o["i"].ll());
+			long j = (long)o["j"].ll();
+			if (!ob || j < 1 || (size_t)j > ob->size()) FAIL("harness: bad assignment");
+			ob->set((size_t)j - 1, o["v"].bytes());
+		}
+		else if (src != 0)
+		{
+			// stream << (long-lived object src): the value is whatever the object holds now
+			Obj* ob = pool.at(src);
+			if (!ob || ob->kind != opname) FAIL("harness: bad source object");
+			if (!putObj(s, ob, (int)step)) FAIL("harness: unknown type");
+		}
 		else if (opname == "w")
 		{
 			if (!putScalar(s, o["t"].s(), o["v"].bytes())) FAIL("harness: unknown type");
@@ -56,6 +116,11 @@ static Outcome runOn(const vj::Value& c)
 	opname = "bytes";
 	std::string got = s.written();
 	if (got != expect) FAIL("stream holds %s, specification says %s", hex(got).c_str(), hex(expect).c_str());
+	opname = "inputs";
+	{
+		std::string d = poolDiff(pool, c["pool"]);
+		if (!d.empty()) FAIL("%s", d.c_str());
+	}
 	// read back: same types, same switch points
 	s.startReading();
 	if (s.unread() != (int)expect.size()) FAIL("%d bytes available to the reader, specification says %d", s.unread(), (int)expect.size());
@@ -64,6 +129,7 @@ static Outcome runOn(const vj::Value& c)
 		const vj::Value& o = hist[step];
 		opname = "read-back of " + o["op"].s();
 		if (o["op"].s() == "set") s.rset(endianOf(o["o"].s()));
+		else if (o["op"].s() == "new" || o["op"].s() == "pset") continue;
 		else if (o["op"].s() == "w")
 		{
 			std::string v;
@@ -88,6 +154,10 @@ static Outcome runOn(const vj::Value& c)
 	}
 	opname = "end";
 	if (s.unread() != 0) FAIL("%d bytes left after reading everything back", s.unread());
+	{
+		std::string d = poolDiff(pool, c["pool"]);
+		if (!d.empty()) FAIL("%s", d.c_str());
+	}
 	return Outcome();
 }
 
@@ -98,7 +168,9 @@ static Outcome runAll(const vj::Value& c)
 	r = runOn<FileStream>(c);
 	if (!r.ok) return r;
 	r = runOn<SocketStream>(c);
-	r.nontrivial = c["hist"].size() >= 2;
+	size_t calls = 0;
+	for (size_t i = 0; i < c["hist"].size(); i++) calls += c["hist"][i]["op"].s() != "new";
+	r.nontrivial = calls >= 2;
 	return r;
 }
 
